@@ -25,6 +25,7 @@ pub const ARENAS: &[ArenaDef] = &[
     ArenaDef { name: "non-metric-three-locations", code: "0,0,2,0,7,3,1,3,3,0,0,0;0.0.0.1,0.1.1.2,0.0.3.1", why: "three locations with a non-metric dead-head matrix, two slots, idle-dominant costs, dead-head shunting" },
     ArenaDef { name: "rich-two-types-two-segments-colocated", code: "3,4,2,0,9,2,1,5,0,0,1,0,0,0;0.0.0.2,1.1.3.0,0.1.2.0", why: "two types, a two-segment route limited to one vehicle on its first segment only (the second needs two), two locations 0 s / 0 m apart, dead-head shunting 300 s, one depot of total 2 with mixed per-type limits, two-track slot; a trip of the other type can follow the two-segment trip (dummy tours of mixed types)" },
     ArenaDef { name: "partial-allowed-types", code: "3,0,0,0,6,1,1,0,0,0,0,0,0,0;0.1.0.1,1.0.0.1,0.0.2.1", why: "the depot at L0 does not list type A although A trips end there (end depots with capacity 0 for the type), the other depot has capacity 1" },
+    ArenaDef { name: "tight-detour", code: "0,0,4,0,0,8,1,4,0,0,0,0,0,0;0.0.0.0,0.0.1.0,0.1.2.0", why: "minimal shunting 900 s but 60 s dead-heads: a five-minute slot at L0 is the only connection between an arrival at L1 (09:00) and a departure there (09:10); tours and dummy tours whose trips are connectable only through the slot" },
 ];
 
 pub struct Bounds {
@@ -43,14 +44,14 @@ fn menu(chain_len: usize, depot_shapes: bool, both_depots: bool, max_dummies: us
 pub fn plans(tier: &str) -> Vec<Bounds> {
     let mut v = if tier == "thorough" {
         vec![
-            Bounds { name: "wide-depth3", depth: 3, arenas: vec![0, 1, 2, 3, 4, 5, 6], menu: menu(2, true, true, 3) },
-            Bounds { name: "plain-paths-depth4", depth: 4, arenas: vec![0, 1, 2, 3, 4, 5, 6], menu: menu(2, false, false, 3) },
+            Bounds { name: "wide-depth3", depth: 3, arenas: vec![0, 1, 2, 3, 4, 5, 6, 7], menu: menu(2, true, true, 3) },
+            Bounds { name: "plain-paths-depth4", depth: 4, arenas: vec![0, 1, 2, 3, 4, 5, 6, 7], menu: menu(2, false, false, 3) },
             Bounds { name: "single-nodes-depth5", depth: 5, arenas: vec![0], menu: menu(1, false, false, 3) },
         ]
     } else {
         vec![
-            Bounds { name: "wide-depth2", depth: 2, arenas: vec![0, 1, 2, 3, 4, 5, 6], menu: menu(2, true, true, 2) },
-            Bounds { name: "plain-paths-depth3", depth: 3, arenas: vec![0, 1, 3, 5, 6], menu: menu(2, false, false, 2) },
+            Bounds { name: "wide-depth2", depth: 2, arenas: vec![0, 1, 2, 3, 4, 5, 6, 7], menu: menu(2, true, true, 2) },
+            Bounds { name: "plain-paths-depth3", depth: 3, arenas: vec![0, 1, 3, 5, 6, 7], menu: menu(2, false, false, 2) },
         ]
     };
     if let Some(d) = std::env::var("RSV_DEPTH").ok().and_then(|s| s.parse().ok()) {
